@@ -19,3 +19,51 @@ package db
 //@   ensures[nonew]   forall k int :: {c.expectedSeqs[k]} 0 <= k && k < len(c.expectedSeqs) ==> old(elem(c.expectedSeqs, now(c.expectedSeqs[k])))
 //@   loop 1 invariant[idx]    safeIdx == #index && -1 <= #index && #index < len(c.expectedSeqs)
 //@   loop 1 invariant[prefix] forall k int :: {c.expectedSeqs[k]} 0 <= k && k <= safeIdx ==> c.expectedSeqs[k] in c.processedSeqs
+
+// The checkpoint handed to _setCheckpoints: every sequence that was expected (in the list on entry) and
+// orders before it has been processed; it is itself expected and processed; and no expected-but-unprocessed
+// sequence is dropped from the lists (so the same holds at every later tick, by induction over calls).
+//@ func Checkpointer._updateCheckpointLists
+//@   safety on
+//@   requires c != nil
+//@   modifies elems(c.expectedSeqs), elems(c.processedSeqs), c.expectedSeqs
+//@   ensures[shrink]  forall e SequenceID :: {e in c.processedSeqs} e in c.processedSeqs ==> old(e in c.processedSeqs)
+//@   ensures[safe]    safeSeq != nil ==> (forall k int :: {old(c.expectedSeqs[k])} 0 <= k && k < old(len(c.expectedSeqs)) && old(c.expectedSeqs[k]).Before(*safeSeq) ==> old(c.expectedSeqs[k] in c.processedSeqs))
+//@   ensures[member]  safeSeq != nil ==> old(elem(c.expectedSeqs, now(*safeSeq))) && old(now(*safeSeq) in c.processedSeqs)
+//@   ensures[retain]  forall k int :: {old(c.expectedSeqs[k])} 0 <= k && k < old(len(c.expectedSeqs)) && !old(c.expectedSeqs[k] in c.processedSeqs) ==> elem(c.expectedSeqs, old(c.expectedSeqs[k]))
+//@   ensures[retain-unprocessed]  forall k int :: {old(c.expectedSeqs[k])} 0 <= k && k < old(len(c.expectedSeqs)) && !old(c.expectedSeqs[k] in c.processedSeqs) ==> !(old(c.expectedSeqs[k]) in c.processedSeqs)
+//@   loop 1 invariant[bounds] 0 <= i && i <= maxI + 1
+//@   loop 1 invariant[shrink] forall e SequenceID :: {e in c.processedSeqs} e in c.processedSeqs ==> old(e in c.processedSeqs)
+//@   loop 2 invariant[bounds] i <= len(c.expectedSeqs) - 2
+//@   loop 2 invariant[shrink] forall e SequenceID :: {e in c.processedSeqs} e in c.processedSeqs ==> old(e in c.processedSeqs)
+//@   loop 2 invariant[retain] forall k int :: {old(c.expectedSeqs[k])} 0 <= k && k < old(len(c.expectedSeqs)) && !old(c.expectedSeqs[k] in c.processedSeqs) ==> elem(c.expectedSeqs, old(c.expectedSeqs[k]))
+//@   loop 2 invariant[safeseq] safeSeq == nil || (old(elem(c.expectedSeqs, now(*safeSeq))) && old(now(*safeSeq) in c.processedSeqs))
+
+//@ func Checkpointer._calculateSafeProcessedSeq
+//@   safety on
+//@   requires c != nil
+//@   modifies elems(c.expectedSeqs)
+//@   ensures[safe] forall k int :: {old(c.expectedSeqs[k])} 0 <= k && k < old(len(c.expectedSeqs)) && old(c.expectedSeqs[k]).Before(result) && result != old(c.lastCheckpointSeq) ==> old(c.expectedSeqs[k] in c.processedSeqs)
+//@   ensures[member] result == old(c.lastCheckpointSeq) || (old(elem(c.expectedSeqs, now(result))) && (result in c.processedSeqs))
+
+// The Add* operations never drop an expected sequence and never un-process one.
+//@ func Checkpointer.AddProcessedSeq
+//@   requires c != nil && c.processedSeqs != nil
+//@   modifies elems(c.processedSeqs), c.stats.ProcessedSequenceCount
+//@   ensures[keeps-processed] forall e SequenceID :: {e in c.processedSeqs} old(e in c.processedSeqs) ==> e in c.processedSeqs
+//@   ensures[only-seq]        forall e SequenceID :: {e in c.processedSeqs} e in c.processedSeqs ==> old(e in c.processedSeqs) || e == seq
+
+//@ func Checkpointer.AddExpectedSeqs
+//@   requires c != nil
+//@   modifies c.expectedSeqs, elems(c.expectedSeqs), c.stats.ExpectedSequenceCount
+//@   ensures[kept]  forall k int :: {old(c.expectedSeqs[k])} 0 <= k && k < old(len(c.expectedSeqs)) ==> elem(c.expectedSeqs, old(c.expectedSeqs[k]))
+//@   ensures[added] c.expectedSeqs == old(c.expectedSeqs) || (forall j int :: {old(seqs[j])} 0 <= j && j < len(seqs) ==> elem(c.expectedSeqs, old(seqs[j])))
+
+//@ func Checkpointer.AddAlreadyKnownSeq
+//@   requires c != nil && c.processedSeqs != nil
+//@   modifies c.expectedSeqs, elems(c.expectedSeqs), elems(c.processedSeqs), c.stats.AlreadyKnownSequenceCount
+//@   ensures[kept]  forall k int :: {old(c.expectedSeqs[k])} 0 <= k && k < old(len(c.expectedSeqs)) ==> elem(c.expectedSeqs, old(c.expectedSeqs[k]))
+//@   ensures[keeps-processed] forall e SequenceID :: {e in c.processedSeqs} old(e in c.processedSeqs) ==> e in c.processedSeqs
+//@   ensures[only-seqs] forall e SequenceID :: {e in c.processedSeqs} e in c.processedSeqs && !old(e in c.processedSeqs) ==> elem(seq, e)
+//@   loop 1 invariant[keeps] forall e SequenceID :: {e in c.processedSeqs} old(e in c.processedSeqs) ==> e in c.processedSeqs
+//@   loop 1 invariant[only]  forall e SequenceID :: {e in c.processedSeqs} e in c.processedSeqs && !old(e in c.processedSeqs) ==> elem(seq, e)
